@@ -6,6 +6,7 @@ import Parmcb.Model.Spanner
 import Parmcb.Model.Lex
 import Parmcb.Model.Iso
 import Parmcb.Model.TreeCheck
+import Parmcb.Model.Cert
 import Parmcb.Driver.Proto
 /-! correspondence handlers for the graph algorithms (C16, C13, C01/C02 …) -/
 namespace Parmcb.Driver
@@ -109,14 +110,20 @@ def validateRun (id : String) (gI : Graph) (v : Variant) (dim : Nat) (cycI : Lis
     if !(evenSetB gI cyc) then throw s!"viol {id} phase {k} not-in-cycle-space"
     if !(dotPar cyc S) then throw s!"diff {id} phase {k} even-against-model-support S=[{showNats S}] C=[{showNats cyc}]"
     let w := wt gI cyc
-    match minOddWeight gI S with
-    | none => throw s!"diff {id} phase {k} model-finds-no-odd-cycle"
-    | some mu =>
-      if w != mu then throw s!"viol {id} phase {k} not-minimum weight={w} optimum={mu} S=[{showNats S}]"
+    -- verified acceptance: the potentials proposed by the driver's own Dijkstra certify that no odd element of
+    -- the cycle space is lighter than `w` (`checkPotential_sound`); only if the certificate is rejected the
+    -- unverified optimum is consulted to tell "not minimum" from "certificate problem"
+    if !(checkPotential gI S (dijkstraPotentials gI S) w) then
+      match minOddWeight gI S with
+      | none => throw s!"diff {id} phase {k} model-finds-no-odd-cycle"
+      | some mu =>
+        if w != mu then throw s!"viol {id} phase {k} not-minimum weight={w} optimum={mu} S=[{showNats S}]"
+        else throw s!"diff {id} phase {k} lower-bound-certificate-rejected weight={w}"
     if brute then
-      match minOddBrute gI S with
-      | some mu => if w != mu then throw s!"viol {id} phase {k} not-minimum-brute weight={w} optimum={mu}"
-      | none => throw s!"diff {id} phase {k} brute-none"
+      if !(checkPhaseBrute gI S cyc) then
+        match minOddBrute gI S with
+        | some mu => throw s!"viol {id} phase {k} not-minimum-brute weight={w} optimum={mu}"
+        | none => throw s!"diff {id} phase {k} brute-none"
     if S.length ≥ gI.n then branchAll := branchAll + 1 else branchHidden := branchHidden + 1
     total := total + w
     k := k + 1
